@@ -314,7 +314,8 @@ PROPS = {
                      "Grol.E.C01.evalI_ctl", "Grol.E.C01.return_stops_block", "Grol.E.C01.eval_depth_guard",
                      "Grol.E.C01.eval_unwrap", "Grol.E.C01.evalI_lambda", "Grol.E.C01.evalI_call",
                      "Grol.E.C01.evalExpressions_cons", "Grol.E.C01.finishCall_value", "Grol.E.C01.apply_is_body",
-                     "Grol.E.C01.apply_bind_error", "Grol.E.C01.apply_non_function"],
+                     "Grol.E.C01.apply_bind_error", "Grol.E.C01.apply_non_function",
+                     "Grol.E.C01.bind_one", "Grol.E.C01.bindParams_run", "Grol.E.C01.extend_plain", "Grol.E.C01.apply_plain"],
         "suites": [["eval", "C01"]],
         "rule": EVAL_RULE + " C01 statement: the default configuration's output/value/error flag per input equal the reference (model without cache).",
         "trusted_base": EVAL_TB,
